@@ -81,4 +81,14 @@ CLAIMED['C17'] = dict(category='proof',
    note=_ASSUME + 'The dimension table (which key is a length / temperature / flow) is ours, written from the property '
         'statement and input_template.txt. Output-side conversions are not decided.',
    technique='contract-based deductive verification (proxy execution of the real reader functions on a symbolic input tree, exact normaliser)')
+CLAIMED['C19'] = dict(category='proof',
+   text='For the real hotspot.calculate_temps with symbolic rises, subfactors (1 + non-negative excess), sigma levels and '
+        'inlet temperature: unit subfactors give exactly the nominal cumulative temperatures; with factors >= 1 the result '
+        'is >= nominal, non-decreasing in the output sigma, its statistical increment times the input sigma is independent '
+        'of the input sigma, and each location adds at least its own rise (square-root monotonicity certificate). '
+        '_get_peak_dt is proved to return the telescoping differences of the stored peak-pin profile above the inlet, '
+        '_split_clad_subfactors to duplicate the clad column and shift the later ones.',
+   note=_ASSUME + 'Precondition IN_sigma > 0. Sizes 1-2 assemblies x 1-3 subfactors x 1-5 terms. eval() expressions and CSV '
+        'parsing are not decided.',
+   technique='contract-based deductive verification (proxy execution, exact normaliser with sqrt relations, sign certificates)')
 NOT_APPLICABLE = {f'C{i:02d}': 'check not built yet in this round (see DESIGN.md section 12 build order)' for i in range(1, 21)}
